@@ -97,8 +97,68 @@ def lengthrange_xml(rng, usethread=None):
     return "".join(out)
 
 
+def write_msh(path, rng):
+    """legacy binary MSH: ints nvertex, nnormal, ntexcoord, nface; float vertex[3nv]; int face[3nf]. A non-convex closed surface
+    (two boxes of different size sharing no volume), so that the legacy / exact / shell inertia modes give different numbers."""
+    def box(lo, hi, off):
+        x0, y0, z0 = lo
+        x1, y1, z1 = hi
+        v = [(x0, y0, z0), (x1, y0, z0), (x1, y1, z0), (x0, y1, z0), (x0, y0, z1), (x1, y0, z1), (x1, y1, z1), (x0, y1, z1)]
+        f = [(0, 2, 1), (0, 3, 2), (4, 5, 6), (4, 6, 7), (0, 1, 5), (0, 5, 4), (1, 2, 6), (1, 6, 5), (2, 3, 7), (2, 7, 6), (3, 0, 4), (3, 4, 7)]
+        return v, [(a + off, b + off, c_ + off) for a, b, c_ in f]
+    a = rng.uniform(0.05, 0.2, size=3)
+    b = rng.uniform(0.03, 0.12, size=3)
+    shift = np.array([a[0] + rng.uniform(0.02, 0.1), rng.uniform(-0.05, 0.05), rng.uniform(-0.05, 0.05)])
+    v1, f1 = box(-a, a, 0)
+    v2, f2 = box(shift, shift + 2 * b, 8)
+    V = np.array(v1 + v2, dtype=np.float32)
+    F = np.array(f1 + f2, dtype=np.int32)
+    with open(path, "wb") as fh:
+        fh.write(np.array([len(V), 0, 0, len(F)], dtype=np.int32).tobytes())
+        fh.write(V.tobytes())
+        fh.write(F.tobytes())
+
+
+def meshfile_xml(rng, files, usethread=None, flavour=0):
+    """several mesh assets over a few MSH files, the same file under different inertia modes (the global asset cache stores a mesh
+    together with the mode it was processed with); visual-only geoms (no convex hull needed); 'flavour' varies which modes come first"""
+    modes = ["", ' inertia="exact"', ' inertia="shell"', ' inertia="legacy"']
+    out = ['<mujoco><compiler %s/><asset>' % ('' if usethread is None else 'usethread="%s"' % ("true" if usethread else "false"))]
+    k = 0
+    order = list(range(len(files)))
+    rng.shuffle(order)
+    for fi in order:
+        ms = [modes[int(x)] for x in rng.permutation(4)[: int(rng.integers(1, 4))]]
+        if flavour == 1:
+            ms = [x for x in ms if x] or [' inertia="exact"']          # a spec that only ever asks for non-default modes
+        for md in ms:
+            out.append('<mesh name="fm%d" file="%s"%s scale="%s"/>' % (k, files[fi], md, "1 1 1" if rng.random() < 0.7 else "1 2 1"))
+            k += 1
+    out.append('</asset><worldbody>')
+    for i in range(k):
+        out.append('<body pos="%d 0 1"><joint type="%s"/><geom type="mesh" mesh="fm%d" contype="0" conaffinity="0" density="%s"/></body>' % (
+            i, ["hinge", "free", "ball", "slide"][i % 4], i, repr(float(rng.uniform(200, 2000)))))
+    out.append('</worldbody></mujoco>')
+    return "".join(out)
+
+
+def _meshfiles(c):
+    d = Path(core.OUT) / "c33-msh" / ("%d-%d" % (os.getpid(), c["mseed"]))
+    d.mkdir(parents=True, exist_ok=True)
+    rng = np.random.default_rng(c["mseed"] + 17)
+    files = []
+    for i in range(c.get("nfile", 3)):
+        f = d / ("m%d.msh" % i)
+        if not f.exists():
+            write_msh(f, rng)
+        files.append(str(f))
+    return files
+
+
 def _xml(c, usethread=None):
     rng = np.random.default_rng(c["mseed"])
+    if c["kind"] == "meshfile":
+        return meshfile_xml(rng, _meshfiles(c), usethread)
     if c["kind"] == "mesh":
         return mesh_xml(rng, c["nmesh"], c["ntex"], usethread)
     if c["kind"] == "lengthrange":
@@ -151,6 +211,27 @@ def worker(c):
             P.violation("compiled-model-differs:%s:%s" % (tag, diff.split(":")[0].split(" ")[0]), {"model": name, "case": c, "relation": tag, "diff": diff})
 
     try:
+        if c["kind"] == "meshfile":
+            # another spec over the same files with other inertia modes is compiled in between: what an earlier compile left in the
+            # process-wide asset cache must not change this spec's model
+            cache = L.call("mj_getCache", ret="ptr")
+            cap = L.call("mj_getCacheCapacity", cache, ret="i64")
+            for fl in (1, 0, 1):
+                try:
+                    # empty the process-wide cache (capacity 0 evicts everything), let ANOTHER spec over the same files populate it
+                    # first (an entry is not replaced while the file's timestamp is unchanged), then compile this spec again
+                    L.call("mj_setCacheCapacity", cache, 0, ret="i64")
+                    L.call("mj_setCacheCapacity", cache, int(cap), ret="i64")
+                    so, mo = compile_text(meshfile_xml(np.random.default_rng(c["mseed"] + 101 + 7 * fl + len(P.counters)), _meshfiles(c), None, flavour=fl), 0x77)
+                    mo.free()
+                    so.free()
+                    P.count("other_spec_over_same_mesh_files_compiled")
+                    sx, mx = load(0x11)
+                    rel("after-another-spec-populated-the-asset-cache", mx)
+                    mx.free()
+                    sx.free()
+                except drv.MjError:
+                    P.count("other_spec_rejected")
         for r in range(c["repeats"]):
             s1, m1 = load(0xA5 if r % 2 == 0 else 0x3C)
             rel("fill-A5", m1)
@@ -216,6 +297,9 @@ def run(ctx):
     for i in range(ctx.pick(16, 200)):
         cs.append({"kind": "mesh", "mseed": int(rng.integers(0, 2 ** 31)), "seed": int(rng.integers(0, 2 ** 31)), "nmesh": int(rng.integers(8, 41)),
                    "ntex": int(rng.integers(0, 6)), "repeats": ctx.pick(3, 10)})
+    for i in range(ctx.pick(16, 200)):
+        cs.append({"kind": "meshfile", "mseed": int(rng.integers(0, 2 ** 31)), "seed": int(rng.integers(0, 2 ** 31)), "nfile": int(rng.integers(1, 4)),
+                   "repeats": ctx.pick(2, 5)})
     for i in range(ctx.pick(24, 300)):
         cs.append({"kind": "lengthrange", "mseed": int(rng.integers(0, 2 ** 31)), "seed": int(rng.integers(0, 2 ** 31)), "repeats": ctx.pick(2, 5)})
     for i in range(ctx.pick(40, 600)):
@@ -239,6 +323,7 @@ def run(ctx):
             ctx.inconclusive("harness exception: " + r["exception"] + r.get("trace", "")[-500:])
         else:
             ctx.merge(r)
+    shutil.rmtree(Path(core.OUT) / "c33-msh", ignore_errors=True)
     # sanitizer part
     tmp = Path(core.OUT) / ("c33-%d" % os.getpid())
     tmp.mkdir(parents=True, exist_ok=True)
